@@ -12,7 +12,7 @@ cd "$wt/r"
 cp "$dir/demo_test.go" "$pkg/zz_seeded_demo_test.go"
 clean=$(go test $race -vet=off -count=1 ./$pkg/ 2>&1 | tail -1)
 rm "$pkg/zz_seeded_demo_test.go"
-git apply "$dir/patch.diff" || { echo "patch does not apply"; exit 2; }
+git apply "$dir/patch.diff" 2>/dev/null || git apply --3way "$dir/patch.diff" >/dev/null 2>&1 || { echo "patch does not apply"; exit 2; }
 build=$(go build ./... 2>&1 | tail -1)
 base=$(go test -vet=off -count=1 ./... 2>&1 | grep -c "^FAIL\|^--- FAIL")
 cp "$dir/demo_test.go" "$pkg/zz_seeded_demo_test.go"
